@@ -56,6 +56,39 @@ def build_harness(release=False):
     return path
 
 
+def build_serde_harness(outdir):
+    """The C16 harness is a separate crate built with the repository's pinned toolchain and the crate's `serde` feature.
+    Returns (path, None) or (None, diagnostic) when it does not compile because the serde impls are missing."""
+    d = os.path.join(ROOT, "harness-serde")
+    env = dict(os.environ, CARGO_NET_OFFLINE="true")
+    r = subprocess.run(["cargo", "build", "--offline", "-q"], cwd=d, env=env, stdout=subprocess.PIPE, stderr=subprocess.STDOUT, text=True)
+    if r.returncode == 0:
+        return os.path.join(d, "target", "debug", "harness-serde"), None
+    if re.search(r"Serialize|Deserialize|DeserializeOwned", r.stdout) and "evalexpr" in r.stdout:
+        os.makedirs(outdir, exist_ok=True)
+        path = os.path.join(outdir, "serde-compile-diagnostic.txt")
+        with open(path, "w") as f:
+            f.write(r.stdout)
+        return None, path
+    raise ToolError("cargo build of harness-serde failed:\n" + r.stdout[-3000:])
+
+
+def build_sendsync(outdir):
+    """C15 type-level half: compile-time Send + Sync assertions.  Returns None, or the path of the compiler diagnostic."""
+    env = dict(os.environ, CARGO_NET_OFFLINE="true")
+    r = subprocess.run(["cargo", "build", "--offline", "-q", "-p", "sendsync"], cwd=RUST, env=env, stdout=subprocess.PIPE,
+                       stderr=subprocess.STDOUT, text=True)
+    if r.returncode == 0:
+        return None
+    if re.search(r"cannot be (sent|shared) between threads|`Send`|`Sync`", r.stdout):
+        os.makedirs(outdir, exist_ok=True)
+        path = os.path.join(outdir, "sendsync-compile-diagnostic.txt")
+        with open(path, "w") as f:
+            f.write(r.stdout)
+        return path
+    raise ToolError("cargo build of sendsync failed:\n" + r.stdout[-3000:])
+
+
 def primgen_path():
     return os.path.join(RUST, "target", "debug", "primgen")
 
@@ -244,7 +277,7 @@ def empty_prims(outdir):
 # ------------------------------------------------------------------------------------------------
 # code -> spec: record executions of the real crate and validate them against Trace_Api.tla
 # ------------------------------------------------------------------------------------------------
-def record_and_validate(tag, gen, n, count, outdir, base_seed=None, timeout=900, parallel=8):
+def record_and_validate(tag, gen, n, count, outdir, base_seed=None, timeout=900, parallel=8, extra_args=(), seeds=None):
     """Records `count` independent traces of `n` driver steps each with generator `gen` (seeds derived from VERIF_SEED)
     and validates each with TLC.  Returns (events_validated, rejections); a rejection carries the first unmatched event."""
     os.makedirs(outdir, exist_ok=True)
@@ -253,10 +286,11 @@ def record_and_validate(tag, gen, n, count, outdir, base_seed=None, timeout=900,
     jobs = []
     total_events = 0
     for i in range(count):
-        sd = base * 1000 + i
+        sd = seeds[i] if seeds else base * 1000 + i
         trace = os.path.join(outdir, f"{tag}_{i}.ndjson")
         req = trace + ".primreq.json"
-        r = subprocess.run([hbin, "record", "--gen", gen, "--seed", str(sd), "--n", str(n), "--out", trace, "--primreq", req],
+        r = subprocess.run([hbin, "record", "--gen", gen, "--seed", str(sd), "--n", str(n), "--out", trace, "--primreq", req]
+                           + list(extra_args),
                            stdout=subprocess.PIPE, stderr=subprocess.STDOUT, text=True)
         if r.returncode != 0:
             raise ToolError(f"[{tag}] recorder failed: {r.stdout[-2000:]}")
@@ -426,9 +460,9 @@ class Check:
         total_rel = sum(v for k, v in summary["failure_checks"].items() if relevant is None or k in relevant)
         self.extra["deviations_total"] = self.extra.get("deviations_total", 0) + total_rel
 
-    def add_traces(self, tag, gen, n, count, check, note=None, timeout=900):
+    def add_traces(self, tag, gen, n, count, check, note=None, timeout=900, extra_args=()):
         """Accounts a code->spec run: recorded traces validated by TLC against Trace_Api.tla."""
-        events, rejections = record_and_validate(tag, gen, n, count, self.outdir, timeout=timeout)
+        events, rejections = record_and_validate(tag, gen, n, count, self.outdir, timeout=timeout, extra_args=extra_args)
         self.trace_events += events
         self.evaluations += events
         self.exhaustive = False if not self.runs else self.exhaustive
@@ -499,7 +533,34 @@ def replay_file(path):
     """Re-runs the stored case of a violation file through the harness; exit code per contract."""
     with open(path) as f:
         v = json.load(f)
+    kind = v["case"].get("kind") if isinstance(v.get("case"), dict) else None
+    if kind == "compile":
+        # the violation was a compile-time one (Send + Sync assertions / serde impls): compile again
+        diag = build_sendsync(os.path.join(OUT, "replay")) if v["property"] == "C15" else build_serde_harness(os.path.join(OUT, "replay"))[1]
+        if diag:
+            log(f"  still does not compile: {diag}")
+            log(f"VIOLATION property={v['property']} replay={path}")
+            return 1
+        log(f"[{v['property']}] compiles now")
+        return 0
+    if kind == "trace":
+        # re-record the trace with the stored generator and seed and validate it again
+        c = v["case"]
+        extra = ("--threads", str(c["event"].get("threads", 8))) if c["gen"] == "threads" else ()
+        _, rej = record_and_validate("replay", c["gen"], c["n"], 1, os.path.join(OUT, "replay"), base_seed=0, extra_args=extra,
+                                     seeds=[c["seed"]])
+        if rej:
+            log(f"  event {rej[0]['index']}: {describe_event(rej[0])}")
+            log(f"VIOLATION property={v['property']} replay={path}")
+            return 1
+        log(f"[{v['property']}] the re-recorded trace is accepted")
+        return 0
     hbin = build_harness()
+    if v["check"].startswith("serde"):
+        hbin, diag = build_serde_harness(os.path.join(OUT, "replay"))
+        if hbin is None:
+            log(f"VIOLATION property={v['property']} replay={path}")
+            return 1
     tmp = os.path.join(OUT, "replay")
     os.makedirs(tmp, exist_ok=True)
     summ = os.path.join(tmp, "summary.json")
